@@ -2617,6 +2617,8 @@ def preprocess_file(
                             debug=debug,
                             include_chain=chain,
                         )
+                        # The header may have redefined macros compiled here
+                        def_regexes.clear()
                         log.debug("!!! Completed parsing include file\n")
 
                     else:
